@@ -79,7 +79,9 @@ def double_run(ctx, planname, crash=None, phase=None, sig="SIGKILL", label=""):
     try:
         plan = make_plan(planname, case)
         xs = [j["x"] for j in plan["jobs"]]
-        case.release("go0")  # job 0 runs freely; the others hold until released
+        if phase not in ("submitted", "job0-running"):
+            case.release("go0")  # job 0 runs freely; the others hold until released
+        # (in the two early coarse phases job 0 holds as well, so that the restarted scheduler finds it running)
         crashlog = case.base / "crash.log"
         env = None
         if crash is not None:
@@ -154,8 +156,14 @@ def double_run(ctx, planname, crash=None, phase=None, sig="SIGKILL", label=""):
             except Exception:
                 pass
         # ---- run 2: same plan, no injection
-        h2 = case.start(plan, cert=True)
-        if not case.wait_progress(h2, "submitted-all", 40):
+        h2 = case.start(plan, cert=True, extra_env={"XV_LOGLEVEL": "INFO"})
+        ok2 = case.wait_progress(h2, "submitted-all", 15)
+        if not ok2 and h1["proc"].poll() is None:
+            # the first scheduler received the signal but is still there (it waits for its helper threads, i.e. for
+            # its jobs) and keeps the experiment lock: nothing to adopt yet - let the jobs finish so that it can go
+            ctx.count("first_scheduler_lingers")
+            case.release()
+        if not ok2 and not case.wait_progress(h2, "submitted-all", 60):
             if h2["proc"].poll() is not None:
                 err = (case.base / f"{h2['tag']}.err").read_text()[-500:]
                 ctx.violation("restart-fails", f"after {sig} at {where}: the second run ended before submitting its plan ({case.result(h2)}): {err}", w)
@@ -170,6 +178,19 @@ def double_run(ctx, planname, crash=None, phase=None, sig="SIGKILL", label=""):
         if not case.wait_exit(h2, 90):
             msg = quiescent_hang(case, h2, xs)
             if msg:
+                # hang diagnosis: thread dump of the stuck scheduler and the state of the job directories
+                try:
+                    os.kill(h2["proc"].pid, signal.SIGUSR1)
+                    time.sleep(0.5)
+                    txt = (case.base / f"{h2['tag']}.err").read_text()
+                    i = txt.find("Thread 0x")
+                    names = [l.strip() for l in txt[i:].splitlines() if l.strip().startswith("File") and ("experimaestro" in l or "fasteners" in l)]
+                    msg += " | threads: " + " ; ".join(names[:12])
+                    msg += " | log: " + " ;; ".join(l for l in txt[:i].splitlines() if ("xpm" in l or "Error" in l or "rror" in l or "Traceback" in l or l.startswith("  File")) and "hash" not in l)[-2500:]
+                    msg += " | progress: " + " ;; ".join(l for l in case.progress(h2) if l.startswith("job-coroutine-died"))[:1500]
+                    msg += " | files: " + str(sorted(str(q.relative_to(case.ws)) for q in case.ws.glob("jobs/*/*/*") if q.suffix in (".pid", ".done", ".failed", ".lock")))
+                except Exception:
+                    pass
                 ctx.violation("restart-hangs-at-quiescence", f"after {sig} at {where}: {msg}", w)
             else:
                 ctx.inconclusive(f"run 2 exceeded the watchdog without a quiescence certificate ({case.certificates(h2)})")
